@@ -44,6 +44,7 @@ func checkC17(ctx *Ctx, r *Report) {
 	c17UnfoldTestsTarget(ctx, r)
 	c17FourthRound(ctx, r)
 	c17MethodChangeLocated(ctx, r)
+	c17FifthRound(ctx, r)
 	c18LiteralsShareSlices(ctx, r)
 	// the copies veneers rely on
 	for _, m := range findCopyMethods(ctx) {
@@ -2187,4 +2188,163 @@ func c17MethodChangeLocated(ctx *Ctx, r *Report) {
 	})
 	r.Count("assignments whose method an option action changes", n)
 	r.Floor("assignments whose method an option action changes", 2)
+}
+
+// c17FifthRound — third hunt:
+//   - struct_fields_as_options takes the path under which it assigns the fields from the assignment it has located
+//     (never from a constant index), and its options keep the constants the original option assigns;
+//   - map_to_index compares the names of the two arguments it declares;
+//   - an action that turns an assignment into an append / index assignment leaves the option alone when that
+//     assignment is not a direct one (the rule was applied already: the argument is one element, not the collection).
+func c17FifthRound(ctx *Ctx, r *Report) {
+	n := 0
+	forEachVeneerClosure(ctx, func(p *packages.Package, fd *ast.FuncDecl, fobj *types.Func, lit *ast.FuncLit) {
+		info := p.TypesInfo
+		defs := map[types.Object]ast.Expr{}
+		ast.Inspect(lit.Body, func(q ast.Node) bool {
+			if as, ok := q.(*ast.AssignStmt); ok && as.Tok == token.DEFINE && len(as.Lhs) == len(as.Rhs) {
+				for i, l := range as.Lhs {
+					if id, ok := l.(*ast.Ident); ok {
+						defs[info.Defs[id]] = as.Rhs[i]
+					}
+				}
+			}
+			return true
+		})
+		// constant index into a list of assignments, through local aliases
+		constantIndexed := func(e ast.Expr) string {
+			src := ""
+			ast.Inspect(e, func(q ast.Node) bool {
+				ix, ok := q.(*ast.IndexExpr)
+				if !ok {
+					return true
+				}
+				base := ast.Unparen(ix.X)
+				if id, ok := base.(*ast.Ident); ok {
+					if d, ok := defs[objOf(info, id)]; ok {
+						base = ast.Unparen(d)
+					}
+				}
+				if ff := fieldOf(info, base); ff != nil && ff.Name() == "Assignments" {
+					if tv, ok := info.Types[ix.Index]; ok && tv.Value != nil {
+						src = exprString(ix)
+					}
+				}
+				return true
+			})
+			return src
+		}
+		switch fd.Name.Name {
+		case "StructFieldsAsOptionsAction":
+			// (a) the prefix
+			found := false
+			ast.Inspect(lit.Body, func(m ast.Node) bool {
+				c, ok := m.(*ast.CallExpr)
+				if !ok {
+					return true
+				}
+				sel, ok := c.Fun.(*ast.SelectorExpr)
+				if !ok || sel.Sel.Name != "Append" {
+					return true
+				}
+				id, ok := ast.Unparen(sel.X).(*ast.Ident)
+				if !ok {
+					return true
+				}
+				d, ok := defs[objOf(info, id)]
+				if !ok || !strings.HasSuffix(exprString(d), ".Path") {
+					return true
+				}
+				found = true
+				n++
+				src := constantIndexed(d)
+				r.Check(src == "", "effects/fields-as-options-prefix-located", ctx.FuncName(fobj)+" path prefix "+id.Name, c.Pos(), "the prefix is the path of the located assignment",
+					fmt.Sprintf("struct_fields_as_options assigns the fields of its argument under %s.Path, whatever that assignment assigns: after struct_fields_as_arguments a constant comes first (`outer.kind = \"outer\"`) and the new options assign outer.kind.enabled — a field of a string; the generated code does not compile", src))
+				return true
+			})
+			if !found {
+				r.Undecided("anchor changed: StructFieldsAsOptionsAction no longer prefixes the field assignments with a path")
+			}
+			// (b) the constants
+			keeps := false
+			ast.Inspect(lit.Body, func(m ast.Node) bool {
+				rs, ok := m.(*ast.RangeStmt)
+				if !ok {
+					return true
+				}
+				if ff := fieldOf(info, rs.X); ff == nil || ff.Name() != "Assignments" {
+					return true
+				}
+				ast.Inspect(rs.Body, func(k ast.Node) bool {
+					if as, ok := k.(*ast.AssignStmt); ok && len(as.Lhs) == 1 {
+						if ff := fieldOf(info, as.Lhs[0]); ff != nil && ff.Name() == "Assignments" {
+							keeps = true
+						}
+					}
+					return true
+				})
+				return true
+			})
+			n++
+			r.Check(keeps, "effects/derived-options-keep-constants", ctx.FuncName(fobj)+" carries the other assignments over", lit.Pos(), "the assignments of the original option are walked and added to the options made from it",
+				"the options made by struct_fields_as_options hold one assignment each: what the original option assigned besides its argument (`outer.kind = \"outer\"`) is lost — the target is no longer the same")
+		case "MapToIndexAction":
+			compares := false
+			ast.Inspect(lit.Body, func(m ast.Node) bool {
+				is, ok := m.(*ast.IfStmt)
+				if !ok {
+					return true
+				}
+				be, ok := ast.Unparen(is.Cond).(*ast.BinaryExpr)
+				if !ok || be.Op != token.EQL {
+					return true
+				}
+				lx, lok := ast.Unparen(be.X).(*ast.SelectorExpr)
+				ly, rok := ast.Unparen(be.Y).(*ast.SelectorExpr)
+				if lok && rok && lx.Sel.Name == "Name" && ly.Sel.Name == "Name" && exprString(lx.X) != exprString(ly.X) {
+					compares = true
+				}
+				return true
+			})
+			n++
+			r.Check(compares, "effects/index-arguments-distinct", ctx.FuncName(fobj)+" names its two arguments apart", lit.Pos(), "the names of the key and value arguments are compared",
+				"map_to_index names the key argument `key` and the value argument after the singular of the field: for a map called `keys` both are `key` — `Keys(key string, key string)` does not compile and the assignment reads the key for the value")
+		}
+		// (c) append / index only from a direct assignment
+		changes := false
+		ast.Inspect(lit.Body, func(m ast.Node) bool {
+			as, ok := m.(*ast.AssignStmt)
+			if !ok || len(as.Lhs) != 1 || len(as.Rhs) != 1 {
+				return true
+			}
+			sel, ok := ast.Unparen(as.Lhs[0]).(*ast.SelectorExpr)
+			if !ok || sel.Sel.Name != "Method" {
+				return true
+			}
+			rhs := exprString(as.Rhs[0])
+			if strings.HasSuffix(rhs, "AppendAssignment") || strings.HasSuffix(rhs, "IndexAssignment") {
+				changes = true
+			}
+			return true
+		})
+		if changes {
+			tests := false
+			ast.Inspect(lit.Body, func(m ast.Node) bool {
+				is, ok := m.(*ast.IfStmt)
+				if !ok || !endsInExit(is.Body) {
+					return true
+				}
+				c := exprString(is.Cond)
+				if strings.Contains(c, ".Method != ") && strings.Contains(c, "DirectAssignment") && !strings.Contains(c, "&&") {
+					tests = true
+				}
+				return true
+			})
+			n++
+			r.Check(tests, "effects/method-change-only-from-direct", ctx.FuncName(fobj)+" changes direct assignments only", lit.Pos(), "the option is returned unchanged when the located assignment is not a direct one",
+				ctx.FuncName(fobj)+" looks at the type of the argument only: applied to an option that already appends (`matrix: [...[...string]]`, rule in the common veneers and again in the Go ones) it unwraps the element type once more — Matrix(matrix string) appends a string to a [][]string; map_to_index after array_to_append indexes a list with a string key")
+		}
+	})
+	r.Count("hunted clauses of the option actions (5th round)", n)
+	r.Floor("hunted clauses of the option actions (5th round)", 5)
 }
